@@ -7,6 +7,7 @@
 package main
 
 import (
+	"sync"
 	"crypto/sha256"
 	"encoding/hex"
 	"encoding/json"
@@ -326,6 +327,22 @@ func directMaterializeSvc(v *directView, s *directService) *directSvcObjs {
 	return o
 }
 
+var (
+	directOldMu    sync.Mutex
+	directOldCtl   = map[string]*layer2Controller{}
+	directOldDiffs []string
+	directOldCalls int
+)
+
+// directTakeHistoryDiffs returns (and forgets) the disagreements between fresh and long-lived controllers.
+func directTakeHistoryDiffs() []string {
+	directOldMu.Lock()
+	defer directOldMu.Unlock()
+	d := directOldDiffs
+	directOldDiffs = nil
+	return d
+}
+
 // directL2Decide asks one fresh layer-2 controller per name; returns the names that decided to announce
 // (sorted) and every decision.
 func directL2Decide(w *directWorld, v *directView, so *directSvcObjs, names []string) ([]string, map[string]string) {
@@ -335,6 +352,20 @@ func directL2Decide(w *directWorld, v *directView, so *directSvcObjs, names []st
 		ctl := &layer2Controller{myNode: n, ignoreExcludeLB: v.IgnoreExclude, sList: w.sl}
 		d := ctl.ShouldAnnounce(directLogger, so.key, w.ips, w.pool, so.svc, so.eps, w.nodes)
 		dec[n] = d
+		// the same question to the long-lived controller of that name (a speaker process that has decided every
+		// earlier view of this run): the choice depends on the view only, never on what the process saw before
+		directOldMu.Lock()
+		old := directOldCtl[n]
+		if old == nil {
+			old = &layer2Controller{myNode: n}
+			directOldCtl[n] = old
+		}
+		old.ignoreExcludeLB, old.sList = v.IgnoreExclude, w.sl
+		if d2 := old.ShouldAnnounce(directLogger, so.key, w.ips, w.pool, so.svc, so.eps, w.nodes); d2 != d {
+			directOldDiffs = append(directOldDiffs, fmt.Sprintf("node %s, addresses %v: a fresh controller decides %q, the controller that decided %d earlier views decides %q", n, v.IPs, d, directOldCalls, d2))
+		}
+		directOldCalls++
+		directOldMu.Unlock()
 		if d == "" {
 			ann = append(ann, n)
 		}
